@@ -133,6 +133,7 @@ type jobResult struct {
 	MapRanges   int                    `json:"map_ranges,omitempty"`
 	Funcs       []string               `json:"functions_encoded,omitempty"`
 	Notes       map[string]string      `json:"notes,omitempty"`
+	Unmerged    []string               `json:"unmerged_impure,omitempty"`
 }
 
 var stats struct {
@@ -158,13 +159,16 @@ func noteGlobalStore(g *ssa.Global) {
 	if !inInit {
 		globalWrites[g.String()] = true
 		if rs != nil && rs.noCheck > 0 {
-			panic(engineError{"store to a global inside a merged (assumed pure) call: " + g.String()})
+			impureMerge("store to global " + g.String())
 		}
 	}
 }
 func noteMapWrite(m *mapVal) {
 	if globalMaps[m] && !inInit {
 		globalWrites["map reachable from a global"] = true
+		if rs != nil && rs.noCheck > 0 {
+			impureMerge("write to a map reachable from a global")
+		}
 	}
 }
 
@@ -793,6 +797,25 @@ func main() {
 			continue
 		}
 		r := runJob(j)
+		for try := 0; try < 4 && len(impureMerged) > 0; try++ {
+			// a merged function writes shared state on this tree: explore it by plain forking
+			var keep []string
+			dropped := []string{}
+			for _, m := range j.Merge {
+				if impureMerged[modPath+"/spdxexp."+m] {
+					dropped = append(dropped, m)
+				} else {
+					keep = append(keep, m)
+				}
+			}
+			impureMerged = map[string]bool{}
+			if len(dropped) == 0 {
+				break
+			}
+			j.Merge = keep
+			r = runJob(j)
+			r.Unmerged = append(r.Unmerged, dropped...)
+		}
 		if cfg.Verbose {
 			fmt.Fprintf(os.Stderr, "job %s %s %v: paths=%d panics=%d viol=%d wall=%.2fs solver=%.2fs inconcl=%v\n", j.ID, j.Harness, j.Args, r.Paths, r.Panics, len(r.Violations), r.WallS, r.SolverS, r.Inconcl)
 		}
